@@ -196,6 +196,19 @@ def check_tool_paths(ctx, tool):
             if e.kind not in ('call', 'maycall'):
                 continue
             name, how = rule_origin(prog, t, p, e.node.func, rsyms)
+            if name is not None and name.endswith('.default_rule') and any(
+                    c.kind == 'test' and not c.pol and isinstance(
+                        c.expr, ast.Compare) and isinstance(
+                            c.expr.ops[0], ast.In) and U(c.expr.left) == req
+                    for c in p.conds[:e.nconds]) and any(
+                    c.kind == 'test' and c.pol and isinstance(
+                        c.expr, ast.Compare) and isinstance(
+                            c.expr.ops[0], ast.In) and U(
+                                c.expr.left) == name
+                    for c in p.conds[:e.nconds]):
+                # the default-rule fallback of Rules.__missing__ spelled
+                # out: the requested name is not defined, the default is
+                name = req
             if name is not None:
                 attempts += 1
                 if e.kind == 'call':
@@ -617,6 +630,25 @@ def check_lookup(ctx, tool):
                 r == c or exc_subclass(r, c) or c in (
                     'builtin:Exception', 'builtin:BaseException')
                 for c in caught)]
+            # a lookup under `if <key> in <rules>` cannot miss
+            guarded = False
+            cur3, anc3 = n, pm.get(n)
+            while anc3 is not None:
+                if isinstance(anc3, ast.If) and any(
+                        cur3 is b for b in anc3.body) and isinstance(
+                            anc3.test, ast.Compare) and len(
+                                anc3.test.ops) == 1 and isinstance(
+                                    anc3.test.ops[0], ast.In) and U(
+                                        anc3.test.left) == U(n.slice) and U(
+                                            anc3.test.comparators[0]) == U(
+                                                n.value):
+                    guarded = True
+                cur3, anc3 = anc3, pm.get(anc3)
+            if guarded:
+                ctx.ob('C19.LOOKUP', True, ctx.where(tool.module, n),
+                       tool.qual, 'lookup ' + U(n),
+                       'made only for a name the rule set defines')
+                continue
             denies = any(verdict_of(c) == 'failed' for h in hs
                          for c in ast.walk(h) if isinstance(c, ast.Call))
             if not denies and hs:
